@@ -195,28 +195,73 @@ structure AgreeRows (rows : List Row) : Prop where
 def single (recS : Bytes → Res (Option LineRec)) (l : Bytes) : Res (List Row) :=
   (recS l).bind fun o => rowsOf (build o.toList)
 
-/-- what the per-parser lemmas establish about `rows t` = rows of `ParseBlock` on the text `t` -/
-structure LineFormat (rows : Bytes → Res (List Row)) (recS : Bytes → Res (Option LineRec)) : Prop where
-  block_eq : ∀ t, (codeLines t).length + 2 < 2 ^ 64 →
-    rows t = ((codeLines t).mapM recS).bind fun outs => rowsOf (build (outs.filterMap id))
+/-- what the per-parser lemmas establish about `rows t` = rows of `ParseBlock` on the text `t`, for texts whose
+bytes all satisfy `good` (csv: no NUL inside the text): when every code line has a record, the block is the
+container built from the records; a line alone is parsed to (the container of) its record -/
+structure LineFormat (good : UInt8 → Bool) (rows : Bytes → Res (List Row)) (recS : Bytes → Res (Option LineRec)) : Prop where
+  block_ok : ∀ t outs, (∀ b ∈ t, good b = true) → t.length + 2 < 2 ^ 64 → (codeLines t).mapM recS = .ok outs →
+    rows t = rowsOf (build (outs.filterMap id))
+  rows_single : ∀ l, (∀ b ∈ l, good b = true) → l.length + 2 < 2 ^ 64 → (∀ b ∈ l, isEolB b = false) →
+    rows l = single recS l
   strip : ∀ L, recS (stripEol L) = recS L
   nil : recS [] = .ok none
   fields : (∀ L r, recS L = .ok (some r) → r.fields = []) ∨
     (∀ L r, recS L = .ok (some r) → r.fields.length = r.idx.length)
 
-theorem LineFormat.rows_single {rows : Bytes → Res (List Row)} {recS : Bytes → Res (Option LineRec)}
-    (F : LineFormat rows recS) (l : Bytes) (h : ∀ b ∈ l, isEolB b = false) : rows l = single recS l := by
-  cases l with
-  | nil =>
-    rw [F.block_eq [] (by simp [codeLines])]
-    simp [codeLines, single, F.nil, pure, Except.pure, Except.bind]
-  | cons b s =>
-    have hs : ∀ x ∈ s, isEolB x = false := fun x hx => h x (by simp [hx])
-    rw [F.block_eq (b :: s) (by rw [codeLines_single b s hs]; simp), codeLines_single b s hs]
-    simp only [List.mapM_cons, List.mapM_nil, single, bind, Except.bind, pure, Except.pure]
-    cases recS (b :: s) with
-    | error e => rfl
-    | ok o => cases o <;> rfl
+/-- a parser whose block is *always* the fold of its line records (libsvm, libfm) -/
+theorem LineFormat.ofBlockEq {rows : Bytes → Res (List Row)} {recS : Bytes → Res (Option LineRec)}
+    (block_eq : ∀ t, (codeLines t).length + 2 < 2 ^ 64 →
+      rows t = ((codeLines t).mapM recS).bind fun outs => rowsOf (build (outs.filterMap id)))
+    (strip : ∀ L, recS (stripEol L) = recS L) (nil : recS [] = .ok none)
+    (fields : (∀ L r, recS L = .ok (some r) → r.fields = []) ∨
+      (∀ L r, recS L = .ok (some r) → r.fields.length = r.idx.length)) :
+    LineFormat (fun _ => true) rows recS where
+  block_ok := fun t outs _ hb ho => by
+    rw [block_eq t (by have := codeLines_length t; omega), ho]; rfl
+  rows_single := fun l _ _ h => by
+    cases l with
+    | nil =>
+      rw [block_eq [] (by simp [codeLines])]
+      simp [codeLines, single, nil, pure, Except.pure, Except.bind]
+    | cons b s =>
+      have hs : ∀ x ∈ s, isEolB x = false := fun x hx => h x (by simp [hx])
+      rw [block_eq (b :: s) (by rw [codeLines_single b s hs]; simp), codeLines_single b s hs]
+      simp only [List.mapM_cons, List.mapM_nil, single, bind, Except.bind, pure, Except.pure]
+      cases recS (b :: s) with
+      | error e => rfl
+      | ok o => cases o <;> rfl
+  strip := strip
+  nil := nil
+  fields := fields
+
+theorem eolSplitGo_sub (s cur : Bytes) :
+    ∀ l ∈ eolSplitGo s cur, (∀ b ∈ l, b ∈ s ∨ b ∈ cur) ∧ l.length ≤ s.length + cur.length := by
+  induction s generalizing cur with
+  | nil => intro l hl; simp [eolSplitGo] at hl; subst hl; simp
+  | cons x s ih =>
+    intro l hl
+    by_cases hx : isEolB x = true
+    · simp only [eolSplitGo, hx, if_true, List.mem_cons] at hl
+      rcases hl with rfl | hl
+      · exact ⟨fun b hb => Or.inr (by simpa using hb), by simp⟩
+      · obtain ⟨h1, h2⟩ := ih [] l hl
+        refine ⟨fun b hb => ?_, by simp at h2 ⊢; omega⟩
+        rcases h1 b hb with h | h
+        · exact Or.inl (by simp [h])
+        · simp at h
+    · simp only [eolSplitGo, hx, if_false, Bool.false_eq_true] at hl
+      obtain ⟨h1, h2⟩ := ih (x :: cur) l hl
+      refine ⟨fun b hb => ?_, by simp at h2 ⊢; omega⟩
+      rcases h1 b hb with h | h
+      · exact Or.inl (by simp [h])
+      · simp at h; rcases h with rfl | h
+        · exact Or.inl (by simp)
+        · exact Or.inr h
+
+theorem eolSplit_sub (t : Bytes) : ∀ l ∈ eolSplit t, (∀ b ∈ l, b ∈ t) ∧ l.length ≤ t.length := by
+  intro l hl
+  obtain ⟨h1, h2⟩ := eolSplitGo_sub t [] l hl
+  exact ⟨fun b hb => by rcases h1 b hb with h | h; exact h; simp at h, by simpa using h2⟩
 
 theorem rowsOf_build_nil : rowsOf (build []) = .ok [] := by
   have h : AgreeRecs [] := ⟨Or.inr (by simp), Or.inr (by simp), Or.inr (by simp), Or.inr (by simp), Or.inr (by simp)⟩
@@ -354,13 +399,14 @@ theorem agreeRecs_of_rows (recs : List LineRec) (ha : AgreeRows (recs.map toRow)
         · simp [toRow, he, hve] at h1
 
 /-- **generic core of C11**: the rows of a block are the concatenation of the rows of its lines parsed alone -/
-theorem LineFormat.concat_of_lines {rows : Bytes → Res (List Row)} {recS : Bytes → Res (Option LineRec)}
-    (F : LineFormat rows recS) (t : Bytes) (hb : t.length + 2 < 2 ^ 64) (rss : List (List Row))
+theorem LineFormat.concat_of_lines {good : UInt8 → Bool} {rows : Bytes → Res (List Row)} {recS : Bytes → Res (Option LineRec)}
+    (F : LineFormat good rows recS) (t : Bytes) (hg : ∀ b ∈ t, good b = true) (hb : t.length + 2 < 2 ^ 64) (rss : List (List Row))
     (hl : (eolSplit t).mapM rows = .ok rss) (ha : AgreeRows rss.flatten) :
     rows t = .ok rss.flatten := by
   have hl1 : (eolSplit t).mapM (single recS) = .ok rss := by
     rw [← hl]; symm
-    exact mapM_congr _ _ _ (fun l hl => F.rows_single l (eolSplit_noEol t l hl))
+    exact mapM_congr _ _ _ (fun l hl => F.rows_single l (fun b hb' => hg b ((eolSplit_sub t l hl).1 b hb'))
+      (by have := (eolSplit_sub t l hl).2; omega) (eolSplit_noEol t l hl))
   have hnil : single recS [] = .ok [] := by simp [single, F.nil, Except.bind, rowsOf_build_nil]
   have hstrip : ∀ L, single recS (stripEol L) = single recS L := fun L => by simp [single, F.strip]
   -- move to the code lines
@@ -409,8 +455,6 @@ theorem LineFormat.concat_of_lines {rows : Bytes → Res (List Row)} {recS : Byt
     have h2 := mapM_length _ _ _ ho1
     have h3 := codeLines_length t
     omega
-  rw [F.block_eq t (by have := codeLines_length t; omega), ho1]
-  simp only [Except.bind]
-  rw [rowsOf_build _ hag hlen, hfl, hrows]
+  rw [F.block_ok t outs hg hb ho1, rowsOf_build _ hag hlen, hfl, hrows]
 
 end DmlcModel.Parse
